@@ -4,6 +4,7 @@
    end carry them through the event loop to what is WRITTEN to the virtual
    keyboard (TM.LoopDevice, proofs in TM.LoopDeviceLemmas; the extracted monitor
    runs on the transcripts of the REAL loop, clause C02.device). *)
+From TM Require MonitorsSilent.
 From TM Require Import Base Mapper Monitors Trace MapperInv MapperProps.
 From TM Require Loop LoopSpec LoopDevice LoopDeviceLemmas.
 
@@ -51,6 +52,40 @@ Theorem C02_trigger_consumed :
     still_used (act (state_of is_action L h)) f = true.
 Proof. intros a L h m f H. apply trigger_consumed. apply for_layout_ok_wf. exact H. Qed.
 Print Assumptions C02_trigger_consumed.
+
+(* The extracted step checker Monitors.check_step (applied by the mapper engine
+   to the outputs of the REAL mapper on every explored transition: specification
+   state before and after, keys physically held and keys held on the virtual
+   keyboard before the step, the input, the observed events) states the four
+   clauses above on one observed step: K_C02_justified (a key held after the step
+   is not justified by the keys physically held after it), K_C02_silenced (a
+   silenced key is held), K_C02_release_presses (a release or release-all
+   produced a press), K_C02_trigger (a trigger key of a mapping in effect after
+   the step is held and no mapping in effect outputs it); reported as
+   C02.justified, C02.silenced, C02.release_presses, C02.trigger.  It never
+   fires on the model: for EVERY classification, EVERY accepted layout, EVERY
+   history h and EVERY next input i, applied to the model's own events for i it
+   returns no clause at all, in particular none of these four.  Runs on which
+   these clauses fire: MonitorsSilent.check_step_fires,
+   MonitorsSilent.check_step_fires_every_clause. *)
+Theorem C02_checkers_silent_on_model :
+  forall (is_action : key -> bool) (L : layout) (h : list input) (i : input),
+    for_layout_ok L = true ->
+    let chk := check_step is_action L (state_of is_action L h) (state_of is_action L (h ++ [i]))
+                 (phys_of h) (held_all is_action L h) i
+                 (fst (fst (mstep is_action L (state_of is_action L h) i))) in
+    chk = [] /\ ~ In K_C02_justified chk /\ ~ In K_C02_silenced chk /\ ~ In K_C02_release_presses chk /\ ~ In K_C02_trigger chk.
+Proof.
+  intros a L h i H. cbn zeta.
+  assert (Hwf : wf_layout L) by (apply for_layout_ok_wf; exact H).
+  repeat split.
+  - apply MonitorsSilent.check_step_silent. exact Hwf.
+  - apply MonitorsSilent.check_step_clause_silent. exact Hwf.
+  - apply MonitorsSilent.check_step_clause_silent. exact Hwf.
+  - apply MonitorsSilent.check_step_clause_silent. exact Hwf.
+  - apply MonitorsSilent.check_step_clause_silent. exact Hwf.
+Qed.
+Print Assumptions C02_checkers_silent_on_model.
 
 (* Non-vacuity: the absorbing layout of finding 8.2 (witness 1); after
    C CAPSLOCK A B down the mapping [C,B] is in effect, C is physically held and
